@@ -210,7 +210,7 @@ def check_queries(text, tree, rows, label, report, stats):
 
 def programs():
     out = []
-    for d in ("corpus", "corpus_laws", "corpus_spec"):
+    for d in ("corpus_syntax", "corpus", "corpus_laws", "corpus_spec"):
         for f in sorted(os.listdir(os.path.join(VERIF, d))):
             if f.endswith(".sam"):
                 out.append((d + "/" + f, os.path.join(VERIF, d, f)))
@@ -278,7 +278,7 @@ def run(res, tier):
                         stats["names"] += 1 if n.get("n") is not None else 0
                     _walk(o["tree"], (), cnt)
                     ref = spans
-                    if not name.startswith(("tests/", "std/")) and (tier != "quick" or name.startswith("corpus/")):
+                    if not name.startswith(("tests/", "std/")) and (tier != "quick" or name.startswith(("corpus/", "corpus_syntax/"))):
                         pq = drv.call(["queries", p], check=False, timeout=600)
                         try:
                             rows = [json.loads(x) for x in pq.stdout.split("\n") if x.strip()]
